@@ -250,9 +250,9 @@ open Litep2pVerif Litep2pVerif.Node
 /-- A configuration with every kind of protocol (used by the non-vacuity examples). -/
 def sample : Config :=
   { keepAliveMs := some 600, limits := some (some 2, none), listen := [1, 2],
-    notif := [⟨"/n/a", 1024, "0102", ["/n/old"], 'a'⟩],
+    notif := [⟨"/n/a", 1024, "0102", ["/n/old"], 'a', some 64, some 64, none⟩],
     rr := [⟨"/r/a", 256, 800, ["/r/old"], none⟩, ⟨"/r/b", 64, 800, [], some 1⟩],
-    user := [⟨"/u/a", .varint none⟩], kad := [⟨[], none⟩], ping := some 1, identify := true, bitswap := true,
+    user := [⟨"/u/a", .varint none⟩], kad := [⟨[], none, []⟩], ping := some 1, identify := true, bitswap := true,
     known := some [(0, [.listen 0, .closed, .quic, .wrongPeer 0, .noPeer 0])] }
 
 /-- The connection limits the manager enforces are exactly the configured ones (none if the user set none). -/
